@@ -29,7 +29,7 @@ def parseFiles (s : String) : Option Fs :=
     | _ => none
 
 def renderFs (fs : Fs) : String :=
-  let items := fs.map fun (n, c) => match c with
+  let items := (fs.filter fun e => e.1 != str "." && e.1 != str "..").map fun (n, c) => match c with
     | some b => s!"{hexOfBytes n}={b.length}.{(fnv64 b).toNat}"
     | none => s!"{hexOfBytes n}/"
   let sorted := items.toArray.qsort (· < ·) |>.toList
@@ -74,7 +74,7 @@ def appOp (args : List String) (impl : String) : Option Verdict := do
       let w0 : AppWorld := {
         client := { mode := .passive, ttype := .binary, rfc := true, observers := [0], script := groups,
                     connectOks := connectOks, listenPorts := listenPorts, dataReads := dataReads },
-        stdin := lines, fs := fs }
+        stdin := lines, fs := fs ++ [(str ".", none), (str "..", none)] }
       let w := App.main w0
       let modelSrv := (w.client.trace.filterMap fun | .ctlWrite b => some (hexOfBytes (b.take (b.length - 2))) | _ => none)
       let okOut := matchOut w.out out
